@@ -271,9 +271,8 @@ class Gen(object):
 
     def nonlocal_closure(self, ind, da):
         """At the top level of f only: a closure that WRITES a variable of f through `nonlocal`, with its own control
-        flow, called right away at the top level.  f itself never assigns that variable inside a control-flow body
-        (that shape is the known finding `nonlocal_write_in_reaching_closure`), and the closure is never called from
-        inside f's control flow (writes through called functions are a documented limit)."""
+        flow, called at the top level.  The closure is never called from inside f's control flow (writes through called
+        functions are a documented limit)."""
         r = self.rng
         self.nh += 1
         m, h = 'm%d' % self.nh, 'h%d' % self.nh
@@ -297,6 +296,12 @@ class Gen(object):
         self.lines.extend(inner.lines)
         self.features |= set('nlclosure:' + f for f in inner.features)
         self.emit(ind + '    ', 'return %s' % inner.iexpr(inner_da, 1))
+        if r.random() < 0.5:
+            # f changes the variable in a branch between the definition and the call: the closure's access through
+            # `nonlocal` is what keeps it live (the finding fixed by ccf3d44; a recurrence is a violation)
+            self.features.add('nonlocal_closure_after_branch_write')
+            self.emit(ind, 'if %s:' % self.bexpr(da, 1))
+            self.emit(ind + '    ', '%s = %s' % (m, self.iexpr(da, 1)))
         v = r.choice(self.ivars)
         self.emit(ind, '%s = %s(%s)' % (v, h, self.iexpr(da, 1)))
         self.readonly.add(m)
@@ -378,17 +383,6 @@ KNOWN_CLASS_PROGRAMS = {
     for i in l:
         pass
     return i
-''',
-    'nonlocal_write_in_reaching_closure': '''def f(a, b, c, l):
-    x = 0
-    def g():
-        nonlocal x
-        x = x + 1
-        return x
-    if c:
-        x = 10
-    y = g()
-    return y
 ''',
     'nested_function_parameter_shadows_global': '''def f(a, b, c, l):
     if c:
